@@ -553,7 +553,7 @@ func (db *Database) performFuzzySearch(query string, options SearchOptions) []Se
 	}
 
 	// Perform fuzzy search
-	matches := fuzzy.Find(query, targets)
+	matches := fuzzyFind(query, targets)
 
 	var results []SearchResult
 	for i, match := range matches {
@@ -590,6 +590,19 @@ func (db *Database) performFuzzySearch(query string, options SearchOptions) []Se
 	}
 
 	return results
+}
+
+// fuzzyFind runs the fuzzy matcher on targets. The matcher uses the NUL
+// character as its end-of-text sentinel and indexes out of range when a target
+// contains one (a YAML "\0" in a custom database or notebook), so NUL bytes are
+// blanked in the texts it is given.
+func fuzzyFind(query string, targets []string) fuzzy.Matches {
+	for i, t := range targets {
+		if strings.IndexByte(t, 0) >= 0 {
+			targets[i] = strings.ReplaceAll(t, "\x00", " ")
+		}
+	}
+	return fuzzy.Find(query, targets)
 }
 
 // combineAndDeduplicateResults merges exact and fuzzy results, removing duplicates
@@ -665,7 +678,7 @@ func (db *Database) GetSuggestions(query string, maxSuggestions int) []string {
 	}
 
 	// Find fuzzy matches for the query
-	matches := fuzzy.Find(query, words)
+	matches := fuzzyFind(query, words)
 
 	var suggestions []string
 	for i, match := range matches {
